@@ -772,8 +772,11 @@ static void exec_asm(Run &R, TaskRt &T, int ti, int oi, const Op &op) {
         violate(R, ti, oi, &op, "twin", "offset outside the buffer", a.mode, m.external, explicit_off, 0, a.via_file);
         return;
       }
-      if (memcmp(wp, cv.p, (size_t)off)) {
-        long q = 0;
+      // what this call emitted; the bytes below its start are each instance's own earlier output (or memory the library
+      // never wrote, when the caller moved the offset forward) and are watched by the prefix check of each instance
+      const long from = (start >= 0 && start <= off) ? start : 0;
+      if (memcmp(wp + from, cv.p + from, (size_t)(off - from))) {
+        long q = from;
         while (q < off && wp[q] == cv.p[q]) q++;
         snprintf(d, sizeof d, "byte at offset %ld is %02x, the twin has %02x (%s)", q, cv.p[q], wp[q], what);
         violate(R, ti, oi, &op, "twin", d, a.mode, m.external, explicit_off, 0, a.via_file);
